@@ -925,23 +925,28 @@ class Replayed:
 
 def twin_lot_recipes():
     """directed recipes with two lots of one enzyme (same name, other specific activity: dsl.TWIN_LOT) treated alike one after the
-    other: solutions made up by mass, dispensed into the rows of a plate, pooled again"""
+    other: made up by mass in recipe steps (equal masses, different activities), or declared with the same activity (equal stored
+    amounts, different masses); dispensed into the rows of a plate, topped up, pooled again"""
     q = lambda v, p, b: {'v': v, 'p': p, 'b': b}
     subs = [dict(s) for s in dsl.LIBRARY if s['id'] in (1, 6)] + [dict(dsl.TWIN_LOT)]
     row = lambda r: {'rect': [[r], [0, 1, 2]]}
+    tail = [{'op': 'transfer', 'src': {'c': 4}, 'dst': {'p': 2, 'r': row(0)}, 'q': q('50', 'u', 'L')},
+            {'op': 'transfer', 'src': {'c': 5}, 'dst': {'p': 2, 'r': row(1)}, 'q': q('50', 'u', 'L')},
+            {'op': 'transfer', 'src': {'c': 1}, 'dst': {'c': 4}, 'q': q('1', 'm', 'L')},
+            {'op': 'transfer', 'src': {'c': 1}, 'dst': {'c': 5}, 'q': q('1', 'm', 'L')},
+            {'op': 'transfer', 'src': {'p': 2, 'r': row(1)}, 'dst': {'c': 3}, 'q': q('10', 'u', 'L')}]
+    base = [{'t': 'c', 'name': 1, 'init': [[1, q('20', 'm', 'L')]]}, {'t': 'p', 'name': 2, 'rows': 2, 'cols': 3, 'max': q('300', 'u', 'L')},
+            {'t': 'c', 'name': 3, 'init': []}]
     progs = []
     for a, b in ((6, 10), (10, 6)):
         mode = lambda: {'qs': [q('5', 'm', 'g')], 'total': q('10', 'm', 'L')}
-        progs.append({'subs': subs, 'objects': [{'t': 'c', 'name': 1, 'init': [[1, q('20', 'm', 'L')]]}, {'t': 'p', 'name': 2, 'rows': 2, 'cols': 3, 'max': q('300', 'u', 'L')},
-                                                {'t': 'c', 'name': 3, 'init': []}],
-                      'prefill': [], 'steps': [{'op': 'solution', 'name': 4, 'solutes': [a], 'solvent': 1, 'mode': mode()},
-                                               {'op': 'solution', 'name': 5, 'solutes': [b], 'solvent': 1, 'mode': mode()},
-                                               {'op': 'transfer', 'src': {'c': 4}, 'dst': {'p': 2, 'r': row(0)}, 'q': q('50', 'u', 'L')},
-                                               {'op': 'transfer', 'src': {'c': 5}, 'dst': {'p': 2, 'r': row(1)}, 'q': q('50', 'u', 'L')},
-                                               {'op': 'transfer', 'src': {'c': 1}, 'dst': {'c': 4}, 'q': q('1', 'm', 'L')},
-                                               {'op': 'transfer', 'src': {'c': 1}, 'dst': {'c': 5}, 'q': q('1', 'm', 'L')},
-                                               {'op': 'transfer', 'src': {'p': 2, 'r': row(1)}, 'dst': {'c': 3}, 'q': q('10', 'u', 'L')}],
+        progs.append({'subs': subs, 'objects': base, 'prefill': [],
+                      'steps': [{'op': 'solution', 'name': 4, 'solutes': [a], 'solvent': 1, 'mode': mode()},
+                                {'op': 'solution', 'name': 5, 'solutes': [b], 'solvent': 1, 'mode': mode()}] + tail,
                       'stages': [{'name': 'st1', 'start': 2, 'stop': 4}], 'queries': []})
+        progs.append({'subs': subs, 'objects': base + [{'t': 'c', 'name': 4, 'init': [[1, q('10', 'm', 'L')], [a, q('700', '', 'U')]]},
+                                                       {'t': 'c', 'name': 5, 'init': [[1, q('10', 'm', 'L')], [b, q('700', '', 'U')]]}],
+                      'prefill': [], 'steps': list(tail), 'stages': [{'name': 'st1', 'start': 0, 'stop': 2}], 'queries': []})
     return progs
 
 
